@@ -24,6 +24,7 @@
 EXTENDS Integers, Sequences, FiniteSets, TLC
 CONSTANTS Order, MarkersFirst,
           StepRecovery,   \* FALSE: recovery is one atomic step (what C14 quantifies over: one crash, then a recovery that runs to its end)
+          FixAfterRemove, \* a candidate repair, checked at design level only: the created-workload handler ends by repairing the node's usage from the records
           RCrashes        \* with StepRecovery: how many times the recovering instance may itself stop (0, 1, ...)
 Nodes == {Order[k] : k \in 1..Len(Order)}
 VARIABLES use, rec, cont, marker, wal, pcM, i, pcI, allocd, failed, faults, phase, leak, msgs
@@ -173,7 +174,9 @@ RStep ==
        [] rstep = "rm-rec" ->       \* ... remove the record ...
             /\ rec' = rec \ {cur[2]} /\ rstep' = "rm-cont" /\ Same(<<use, cont, marker, wal, cur, rfix, phase>>)
        [] rstep = "rm-cont" ->      \* ... remove the container
-            /\ cont' = cont \ {cur[2]} /\ rstep' = "del" /\ Same(<<use, rec, marker, wal, cur, rfix, phase>>)
+            /\ cont' = cont \ {cur[2]} /\ rstep' = (IF FixAfterRemove THEN "rm-fix" ELSE "del") /\ Same(<<use, rec, marker, wal, cur, rfix, phase>>)
+       [] rstep = "rm-fix" ->       \* (candidate repair) usage of the node := what its recorded workloads add up to
+            /\ use' = [use EXCEPT ![cur[2]] = RecN(cur[2])] /\ rstep' = "del" /\ Same(<<rec, cont, marker, wal, cur, rfix, phase>>)
        [] rstep = "del" ->          \* hydro.recover: delete the event
             /\ wal' = wal \ {cur} /\ cur' = None /\ rstep' = "pick" /\ rfix' = {} /\ Same(<<use, rec, cont, marker, phase>>)
        [] OTHER -> FALSE
